@@ -9,6 +9,7 @@ from ..model import dotted, unparse
 from . import common as C
 from .ladder import check_ladder, check_ladder_arguments, check_prepare_reschedule
 from .shared import _mentions
+from .C02 import race
 
 SUMMARY = "Ladder rows for recurring jobs, transfer function of _prepare_reschedule, provenance of the period-grid anchor."
 DECIDED = [
@@ -32,6 +33,7 @@ def run(ctx: Ctx) -> None:
     message_reschedule(ctx)
     anchor(ctx, info)
     first_run(ctx)
+    race(ctx, "R-C06-ONE")  # a run that completed must not also be returned to the queue: that would leave two successors
 
 
 def message_reschedule(ctx: Ctx) -> None:
